@@ -441,6 +441,100 @@ func genRandom(r *vh.Rng, maxLen int) Case {
 	return Case{Cfg: cfg, Evs: o}
 }
 
+// parse "down adv10 cb0ok ..." into events
+func parseEvs(s string) []Ev {
+	var o []Ev
+	for _, t := range strings.Fields(s) {
+		switch {
+		case strings.HasPrefix(t, "adv"):
+			var d int
+			fmt.Sscanf(t[3:], "%d", &d)
+			o = append(o, Ev{K: "adv", D: d})
+		case strings.HasPrefix(t, "cb"):
+			o = append(o, Ev{K: "cb", I: int(t[2] - '0'), Ok: strings.HasSuffix(t, "ok")})
+		default:
+			o = append(o, Ev{K: t})
+		}
+	}
+	return o
+}
+
+// the stored witnesses of the known findings; the defect stream generates their neighbours
+var witnesses = []string{
+	"down adv10 up down stalefo cb0ok",
+	"down adv10 up down adv10 firefo stalefo cb0ok cb0ok",
+	"down adv10 firefo cb0ok up adv12 firefb down tick up adv12 firefb cb0ok down adv10 firefo cb0ok up down adv10 firefo cb0ok cb0ok",
+	"down adv10 firefo cb0ok up adv12 firefb down cb0ok adv11 up down",
+	"down adv10 firefo cb0ok up adv12 firefb stalefb cb0ok cb0ok",
+	"down adv10 up down adv10 up down stalefo stalefo firefo cb1ok cb0ok cb0fail",
+}
+
+func genDefect(r *vh.Rng) Case {
+	cfg := Cfg{Delay: 10, FbDelay: 12, FbEnabled: true, Orig: "standby"}
+	alpha := alphabet(cfg, 3)
+	evs := parseEvs(witnesses[r.Intn(len(witnesses))])
+	for k := r.Intn(4); k > 0; k-- { // insert a few events
+		i := r.Intn(len(evs) + 1)
+		e := alpha[r.Intn(len(alpha))]
+		evs = append(evs[:i], append([]Ev{e}, evs[i:]...)...)
+	}
+	if r.Chance(1, 3) && len(evs) > 2 { // or drop one
+		i := r.Intn(len(evs))
+		evs = append(evs[:i], evs[i+1:]...)
+	}
+	for k := r.Intn(5); k > 0; k-- {
+		evs = append(evs, alpha[r.Intn(len(alpha))])
+	}
+	return Case{Cfg: cfg, Evs: evs}
+}
+
+// genGuarded: histories inside all three guards by construction: no stale fires; whenever an
+// execution may have started its callback returns before anything but clock moves and (for a
+// failover) health reports happen; no health-check failure between a failback start and its return.
+func genGuarded(r *vh.Rng, maxLen int) Case {
+	cfg := Cfg{Delay: 10, FbDelay: 12, FbEnabled: !r.Chance(1, 6), Orig: "standby"}
+	if r.Chance(1, 5) {
+		cfg.Delay, cfg.FbDelay = 1+r.Intn(6), 1+r.Intn(6)
+	}
+	advs := []int{1, 3, cfg.Delay - 1, cfg.Delay, cfg.Delay + 1, cfg.FbDelay}
+	n := 4 + r.Intn(maxLen)
+	var evs []Ev
+	adv := func() {
+		if d := advs[r.Intn(len(advs))]; d > 0 {
+			evs = append(evs, Ev{K: "adv", D: d})
+		}
+	}
+	for len(evs) < n {
+		switch x := r.Intn(20); {
+		case x < 4:
+			evs = append(evs, Ev{K: "down"})
+		case x < 7:
+			evs = append(evs, Ev{K: "up"})
+		case x < 11:
+			adv()
+		case x < 12:
+			evs = append(evs, Ev{K: "tick"})
+		case x < 13:
+			evs = append(evs, Ev{K: "forcefb"})
+		default:
+			k := []string{"firefo", "firefo", "firefb", "firefb", "forcefo"}[r.Intn(5)]
+			evs = append(evs, Ev{K: k})
+			for j := r.Intn(3); j > 0; j-- { // the grace period / callback window
+				switch y := r.Intn(4); {
+				case y == 0 && k != "firefb":
+					evs = append(evs, Ev{K: "down"})
+				case y == 1:
+					evs = append(evs, Ev{K: "up"})
+				default:
+					adv()
+				}
+			}
+			evs = append(evs, Ev{K: "cb", I: 0, Ok: !r.Chance(1, 4)})
+		}
+	}
+	return Case{Cfg: cfg, Evs: evs}
+}
+
 const header = `From Coq Require Import NArith List. Import ListNotations.
 From Verif Require Import Model.Failover Model.FailoverSpec Model.FailoverCheck.
 Local Open Scope N_scope.
@@ -475,14 +569,14 @@ func main() {
 	if len(corpus) > 0 {
 		vh.Emit(cfg, "corpus", header, footer, corpus, nil)
 	}
-	depth, nrand, maxLen := 5, 300, 16
+	depth, nrand, maxLen := 4, 200, 16
 	if cfg.Thorough() {
-		depth, nrand, maxLen = 7, 6000, 40
+		depth, nrand, maxLen = 6, 3000, 40
 	}
 	std := Cfg{Delay: 10, FbDelay: 12, FbEnabled: true, Orig: "standby"}
 	ex := explore(std, depth, 0)
 	ex = append(ex, explore(Cfg{Delay: 10, FbDelay: 12, FbEnabled: false, Orig: "standby"}, depth-1, 0)...)
-	ex = append(ex, explore(Cfg{Delay: 10, FbDelay: 12, FbEnabled: true, Orig: "active"}, 3, 0)...)
+	ex = append(ex, explore(Cfg{Delay: 10, FbDelay: 12, FbEnabled: true, Orig: "active"}, 2, 0)...)
 	vh.Emit(cfg, "exhaustive", header, footer, ex, map[string]interface{}{"exhaustive": true,
 		"exhaustive_note": fmt.Sprintf("breadth-first over the 19-event alphabet to depth %d; a sequence is extended only when it reaches a new implementation-state fingerprint (role, state, health, timer remaining times, zombie timers, outstanding callbacks, age of the down report)", depth)})
 	r := vh.NewRng(cfg.Seed)
@@ -492,4 +586,15 @@ func main() {
 		cases = append(cases, cs)
 	}
 	vh.Emit(cfg, "cases", header, footer, cases, nil)
+	var guarded, defect []vh.Case
+	for i := 0; i < nrand; i++ {
+		cs, _ := run(genGuarded(r.Fork(), maxLen), "guarded")
+		guarded = append(guarded, cs)
+	}
+	vh.Emit(cfg, "guarded", header, footer, guarded, map[string]interface{}{"note": "histories inside the guards of every _partial theorem by construction: any rejection here is new by theorem"})
+	for i := 0; i < nrand/2; i++ {
+		cs, _ := run(genDefect(r.Fork()), "defect-neighbour")
+		defect = append(defect, cs)
+	}
+	vh.Emit(cfg, "defect", header, footer, defect, nil)
 }
